@@ -112,7 +112,8 @@ structure Handle where
   cfState : FState := .new               -- client filter f->state
   cs : Option CState := none             -- f->data of the client filter (freed = none)
   memSink : Bool := false                -- opened with archive_write_open_memory
-  fileSink : Bool := false               -- opened with archive_write_open_fd / _filename on a regular file
+  fileSink : Bool := false               -- opened with archive_write_open_fd / _filename
+  sinkPads : Bool := false               -- … on a character/block device or FIFO (fstat in file_open)
   openerRet : Int := 0                   -- what the client's open callback returns
   remaining : Nat := 0                   -- ustar->entry_bytes_remaining
   padding : Nat := 0                     -- ustar->entry_padding
@@ -271,7 +272,9 @@ def clientOpenStep (h : Handle) : Int × Handle :=
   let h1 := if h.memSink ∧ h.openerRet = ok ∧ h.bil = -1 then { h with bil := 1 }
     -- file_open of archive_write_open_fd.c / _filename.c: "If client hasn't explicitly set the last
     -- block handling": a regular file is left unpadded
-    else if h.fileSink ∧ h.openerRet = ok ∧ h.bil < 0 then { h with bil := 1 } else h
+    -- a device or FIFO gets full last blocks, anything else is left unpadded — only when the client has
+    -- not set bytes_in_last_block itself
+    else if h.fileSink ∧ h.openerRet = ok ∧ h.bil < 0 then { h with bil := if h.sinkPads then 0 else 1 } else h
   if h.openerRet = ok then (ok, { h1 with cfState := .open, cs := some (clientOpen h1.bpb) })
   else (h.openerRet, { h1 with cfState := .fatal, cs := none })
 
